@@ -14,6 +14,7 @@ Hypotheses made explicit:
    "RefList" (list spec): `Column.set` then stores the cleaned values as given.
 -/
 import GristProofs.MetaRefsRemove
+import GristProofs.RefListRoundTrip
 namespace Grist.Doc
 
 /-! ### R1: the cleaned cell -/
@@ -88,6 +89,29 @@ theorem no_refs_to_removed {d d1 : Doc} {s : Summary} {r : DAResult}
     NoRefsTo d1 specs t gone ∧ NoRefsTo r.doc specs t gone ∧ refsResolve d1 specs = true ∧ WF d1 := by
   have h := cleanup_then_remove_full hrt hwf hty hres h1 (post_of_ok h2)
   exact ⟨h.1.2.1, h.2.2, h.1.1, h.1.2.2⟩
+
+/-- The RefList hypothesis reduced to a statement about the core library's `String.splitOn` only
+    (`SplitOnJoin`: splitting a `", "`-joined list of non-empty digit strings gives the list back);
+    everything else in the round trip (decimal rendering vs `natOfDigits`, `startsWith`, `endsWith`,
+    `drop`, `dropEnd` on the token) is proved in GristProofs/RefListRoundTrip.lean. -/
+theorem refListRoundTrip_of_splitOn' (hs : SplitOnJoin) : RefListRoundTrip :=
+  refListRoundTrip_of_splitOn hs
+
+theorem cleanup_then_remove_resolves_of_splitOn {d d1 : Doc} {s : Summary} {r : DAResult}
+    {specs : List RefSpec} {t : String} {gone : List Nat} (hs : SplitOnJoin)
+    (hwf : WF d) (hty : SpecTyped d specs) (hres : refsResolve d specs = true)
+    (h1 : applyAll d (cleanupUpdates d specs t gone) = .ok d1)
+    (h2 : docAction d1 s (.bulkRemove t gone) = .ok r) :
+    refsResolve r.doc specs = true :=
+  cleanup_then_remove_resolves_partial (.inl (refListRoundTrip_of_splitOn hs)) hwf hty hres h1 h2
+
+theorem no_refs_to_removed_of_splitOn {d d1 : Doc} {s : Summary} {r : DAResult}
+    {specs : List RefSpec} {t : String} {gone : List Nat} (hs : SplitOnJoin)
+    (hwf : WF d) (hty : SpecTyped d specs) (hres : refsResolve d specs = true)
+    (h1 : applyAll d (cleanupUpdates d specs t gone) = .ok d1)
+    (h2 : docAction d1 s (.bulkRemove t gone) = .ok r) :
+    NoRefsTo d1 specs t gone ∧ NoRefsTo r.doc specs t gone ∧ refsResolve d1 specs = true ∧ WF d1 :=
+  no_refs_to_removed (.inl (refListRoundTrip_of_splitOn hs)) hwf hty hres h1 h2
 
 /-- the removal alone, once nothing refers to the rows -/
 theorem remove_unreferenced_resolves {d1 : Doc} {s : Summary} {r : DAResult} {specs : List RefSpec}
